@@ -284,12 +284,32 @@ def s_For(I, st, env):
     it = I.eval(st.iter, env)
     if spec is not None and spec.elem_ty and not isinstance(it, (SList, PyList)):
         it = PyList(I.concrete_iter(it))
+    if isinstance(it, SSet):
+        from .types import ListT as _ListT
+
+        lst = fresh_value(I.ctx, _ListT(it.ety), "set_elements")
+        j_ = z3.Int(I.ctx.fresh_name("sj"))
+        I.ctx.assume(z3.ForAll([j_], z3.Implies(z3.And(0 <= j_, j_ < lst.nz()), z3.Select(it.pred, z3.Select(lst.arr, j_)))))
+        it = lst
     if isinstance(it, Obj) and it.cls == "generator":
         it = it.fields["trace"]
     elif isinstance(it, Obj) and not it.rec and I.V.has_method(it.cls, "__iter__"):
         it = I.call_method(it, "__iter__", [], {})
     if isinstance(it, Opaque) or (isinstance(it, Iter) and any(isinstance(x, Opaque) for x in it.srcs)):
         return opaque_loop(I, st, env)
+    if spec is None and I.V.c.ghost.get("auto_cut") and isinstance(it, (SList, Iter)) and not (isinstance(it, SList) and isinstance(it.n, int)):
+        # a loop without a contract over a list of unknown length: cut with the weakest invariant (True); only the ghost
+        # counters of the tracked calls that occur in its body are havoced
+        from .contract import Loop as _Loop
+
+        gm = []
+        tg = I.V.c.ghost.get("tracked_ghost", {})
+        for n_ in ast.walk(ast.Module(body=st.body, type_ignores=[])):
+            if isinstance(n_, ast.Call):
+                fn_ = ast.unparse(n_.func).rsplit(".", 1)[-1]
+                gm += tg.get(fn_, [])
+        spec = _Loop(index=f"_auto{ordn}", inv={}, ghost_modifies=sorted(set(gm)))
+        I.V.auto_cut_loops = getattr(I.V, "auto_cut_loops", set()) | {(I.frame.qual, ordn)}
     if spec is None or spec.unroll:
         try:
             items = I.concrete_iter(it)
@@ -398,13 +418,21 @@ def havoc_value(I: Interp, v, hint):
         return nv
     if isinstance(v, PyList):
         if not v.items:
-            raise Unsupported(f"cannot havoc untyped empty list {hint}; declare its type in the loop contract")
+            from .types import Abs as _Abs, ListT as _ListT
+
+            nv = fresh_value(I.ctx, _ListT(_Abs("Any")), hint)
+            nv.immutable = False
+            return nv
         l = I.to_slist(v)
         nv = fresh_value(I.ctx, l.ty, hint)
         nv.immutable = False
         return nv
     if isinstance(v, SDict):
         return fresh_value(I.ctx, v.ty, hint)
+    if isinstance(v, PyDict) and getattr(v, "assoc", None) is not None and not v.d:
+        nv = PyDict({})
+        nv.assoc = havoc_value(I, v.assoc, hint + ".assoc")
+        return nv
     if isinstance(v, PyDict):
         out = {}
         for k, x in v.d.items():
@@ -424,6 +452,15 @@ def havoc_value(I: Interp, v, hint):
         I.ctx.assume(ni.pos >= 0)
         return ni
     t = ty_of(v)
+    if isinstance(v, (set, frozenset)):
+        from .types import Abs as _Abs, SetT as _SetT
+
+        ety = ty_of(next(iter(v))) if v else _Abs("Any")
+        if isinstance(next(iter(v), None), str):
+            from .types import STR as _STR
+
+            ety = _STR
+        return fresh_value(I.ctx, _SetT(ety), hint)
     if t is None:
         if isinstance(v, (Opaque, Closure)) or v is None:
             return Opaque(hint)
